@@ -53,6 +53,8 @@ type Item struct {
 	Depth int      `json:"depth,omitempty"`
 	Sizes []int    `json:"sizes,omitempty"`
 	Us    []string `json:"us,omitempty"`
+	// NoTree: do not build and print the syntax tree in history steps (inputs with ~10^5 tokens)
+	NoTree bool `json:"notree,omitempty"`
 }
 
 type Shard struct {
